@@ -5,6 +5,11 @@ ULPIRegisterWindow, ULPIControlTranslator and ULPIRxEventDecoder inside), ULPI b
 handle_clocking=False.  Environment: the shared ULPI PHY model (lib/ulpi.py) on the bus side, a UTMI transmit
 producer on the UTMI side.  The oracle is the PHY's view of the bus: an independent PHY-side command decoder says
 which bytes the PHY accepted; they are compared with what the UTMI producer offered.
+
+FINDINGS: none for this property (all assertions hold on the unchanged tree within the bounds; 10/10 mutants caught).
+Observed while building it, recorded under C24: a transmission requested in the same cycle as a register write request
+dead-locks both (the mutant "transmit drives only when the register window does not" fails here, i.e. both request the
+bus in reachable states); the translator ignores DIR in its TRANSMIT state (outside the PHY contract assumed here).
 """
 from amaranth import *
 from ..harness import Harness
